@@ -639,6 +639,14 @@ class Rewriter:
             b = (b[:fm.start()] + 'let mut %s__it = %s;\n        loop {\n            match %s__it.next() {\n                Some(%s) => {%s}\n                None => { break; }\n            }\n        }'
                  % (fm.group(2), src_it, fm.group(2), fm.group(1), body) + b[cpos + 1:])
             self.fired('R23:for-over-iterator')
+        fm = re.search(r'\bfor (\w+) in (decode_utf16_model\([^{]*?\))\s*\{', mask(b))
+        if fm:
+            o = fm.end() - 1
+            cpos = match_close(mask(b), o)
+            body = b[o + 1:cpos]
+            b = (b[:fm.start()] + 'let mut dec__it = %s;\n        loop {\n            match dec__it.next() {\n                Some(%s) => {%s}\n                None => { break; }\n            }\n        }'
+                 % (b[fm.start(2):fm.end(2)], fm.group(1), body) + b[cpos + 1:])
+            self.fired('R23:for-over-iterator')
         # raw pointer primitives
         b = self.map_calls(b, r'(?<![\w.:])ptr::write', lambda m_, a: 'buf_write(hs, %s)' % ', '.join(a), 'R22:ptr-write')
         b = self.map_calls(b, r'(?<![\w.:])ptr::read', lambda m_, a: 'buf_read(hs, %s)' % ', '.join(a), 'R22:ptr-read')
@@ -742,6 +750,9 @@ class Rewriter:
         b = self.sub('R25:slice-chars', r'\bself\[(\w+)\.\.(\w+)\]\.chars\(\)', r'self.slice_chars(hs, \1, \2)', b)
         b = self.sub('R25:is_char_boundary', r'\bself\.is_char_boundary\(', 'self.is_char_boundary(hs, ', b)
         b = self.sub('R25:len_utf8', r'\b(\w+)\.len_utf8\(\)', r'char_len_utf8(\1)', b)
+        b = self.sub('R25:decode_utf16', r'\bdecode_utf16\(v\.iter\(\)\.cloned\(\)\)', 'decode_utf16_model(&v)', b)
+        b = self.sub('R25:model-type', r'\bFromUtf16Error\(\(\)\)', 'FromUtf16Error', b)
+        b = self.map_calls(b, r'\bret\.push', lambda m_, a: 'ret.push(hs, %s)' % a[0], 'R12:thread-heap')
         b = self.sub('R25:char-as-u8', r'\b(\w+) as u8\b', r'char_as_u8(\1)', b)
         b = self.sub('R25:panic', r'\bpanic!\([^;]*?\)(?=\s*[,;}])', 'rt_panic_std(hs)', b)
         # `let X = OPT?;` in a function returning Option is by definition `match OPT { Some(v) => v, None => return None }`
@@ -789,6 +800,8 @@ class Rewriter:
         b = self.sub('R27:pin', r'\bPin::new_unchecked\(', 'pin_new_unchecked(', b)
         b = self.method_to_fn(b, 'into', 'BoxM::pin_from', 'R27:into-pin')
         b = self.sub('R27:any-is', r'\bself\.is::<T>\(\)', 'any_is_T(&self)', b)
+        b = self.sub('R27:ptr-eq', r'\b(?:core::)?ptr::eq\(&\*\*self, &\*\*other\)', 'ptr_identical(self, other)', b)
+        b = self.map_calls(b, r'\bv\.into_boxed_slice', lambda m_, a: 'v.into_boxed_slice(st)', 'R27:thread-store')
         b = self.sub('R27:forget', r'\bmem::forget\(self\)', 'vec_forget(self, st)', b)
         b = self.sub('R27:vec-len', r'\bself\.len\b(?!\()', 'self.len', b)
         # forwarding to the inner value
